@@ -319,7 +319,12 @@ fn calculate_reference_sequence_md5(
         .expect("missing reference sequence")?;
 
     let interval = context.alignment_start()..=context.alignment_end();
-    let sequence = &reference_sequence[interval];
+    let sequence = reference_sequence.get(interval).ok_or_else(|| {
+        io::Error::new(
+            io::ErrorKind::InvalidInput,
+            "slice alignment range is out of bounds of the reference sequence",
+        )
+    })?;
 
     Ok(Some(calculate_normalized_sequence_digest(sequence)))
 }
